@@ -37,7 +37,7 @@ KFL_RULE = ("a coherence block - every comparison operator between a path (plain
 PROPS = {
     "C11": dict(
         proof_modules=["KsVerif.Proofs.C11"],
-        families=["stages.redis", "stages.amqp", "stages.http", "stages.dns"],
+        families=["stages.redis", "stages.amqp", "stages.http", "stages.dns", "stages.kafka"],
         rule="stages.<proto>: the conversations of redis.conv, amqp.conv (every method, tables holding every field type, "
              "contents) and http.conv (1-4 exchanges, bodies across 4096 / 8192, chunked / fixed / close-delimited; for stages.http also "
              "request targets without a path: absolute-form without one, authority-form CONNECT, OPTIONS *) are "
@@ -47,11 +47,11 @@ PROPS = {
              "(sections of type table or body, table data a JSON list) recorded per item; non-trivial = at least one item",
         trusted_base=["Stages/Driver.lean redisShape = the json tags of RedisPacket; demands read off representGeneric / Summarize",
                       "internal/stages reproduces the JSON round trips of worker and hub"] + LIB,
-        assumptions=["Kafka stages are not covered yet; DNS items are built as the tap would (all record fields present as strings)"],
+        assumptions=["stages.kafka covers the APIs / versions the layouts can express (see C06 deviations); DNS items are built as the tap would (all record fields present as strings)"],
     ),
     "C16": dict(
         proof_modules=["KsVerif.Proofs.C16"],
-        families=["queries.redis", "queries.amqp", "queries.http", "queries.dns"],
+        families=["queries.redis", "queries.amqp", "queries.http", "queries.dns", "queries.kafka"],
         rule="queries.<proto>: for every entry produced from the conversations of the stages families, its method, summary "
              "and status queries and every registered macro are evaluated on that entry by the real kfl.Apply; the Lean "
              "side parses the same query texts (shapes Summarize produces), prepares and evaluates them on the entry with "
